@@ -38,8 +38,7 @@ Inductive hexc :=
 | XNotFound               (* SQLObjectNotFound from get *)
 | XLocked                 (* OperationalError: database is locked *)
 | XNoConnection           (* AttributeError: the hub has nothing for this thread *)
-| XNested                 (* outside the model: the slot already held a Transaction *)
-| XCommit.                (* AttributeError out of conn.commit(close=True): the loop that expires the parent's instances raised *)
+| XNested.                (* outside the model: the slot already held a Transaction *)
 
 (* what doInTransaction hands back: the body's value (here: the ids it created), or the exception
    together with the index of the body step that raised it (its identity) *)
@@ -51,15 +50,10 @@ Inductive phase :=
 | PIdle (body : list bstep)                                   (* has not called doInTransaction yet *)
 | PRun (old : cref) (is_thr : bool) (view : option table)     (* inside: the saved connection, which slot, private view once it wrote *)
        (cached : list Z)                                      (* ids the transaction's cache holds *)
-       (touched : list Z)                                     (* ids commit will walk over: cached now, or deleted in the body *)
        (rest : list bstep) (k : nat) (created : list Z)
 | PDone (r : result) (x : option txinfo).                     (* returned / raised; the transaction it used, if one was opened *)
 
-(* ts_poison = Some id: the thread's parent connection (cache=False) holds an instance of row id whose reload
-   raised not-found earlier -- sqlmeta.expired is clear and the attributes are gone -- so that expire() on it
-   raises AttributeError (C07 finding expire_raises_on_attributeless_instance); a fault of the environment
-   of doInTransaction, fixed for the whole run *)
-Record tstate := { ts_slot : option cref; ts_poison : option Z; ts_phase : phase }.
+Record tstate := { ts_slot : option cref; ts_phase : phase }.
 
 Record gst := {
   g_committed : table;
@@ -68,7 +62,7 @@ Record gst := {
   g_threads : list tstate
 }.
 
-Definition idle_thread : tstate := {| ts_slot := None; ts_poison := None; ts_phase := PIdle [] |}.
+Definition idle_thread : tstate := {| ts_slot := None; ts_phase := PIdle [] |}.
 Definition thread (g : gst) (t : nat) : tstate := nth t (g_threads g) idle_thread.
 
 (* hub.getConnection() called in thread t *)
@@ -77,7 +71,7 @@ Definition resolve (g : gst) (t : nat) : option cref :=
 
 Definition set_thread (g : gst) (t : nat) (slot : option cref) (ph : phase) : gst :=
   {| g_committed := g_committed g; g_lock := g_lock g; g_proc := g_proc g;
-     g_threads := set_nth t {| ts_slot := slot; ts_poison := ts_poison (thread g t); ts_phase := ph |} (g_threads g) |}.
+     g_threads := set_nth t {| ts_slot := slot; ts_phase := ph |} (g_threads g) |}.
 Definition with_gcommitted (g : gst) (c : table) : gst :=
   {| g_committed := c; g_lock := g_lock g; g_proc := g_proc g; g_threads := g_threads g |}.
 Definition with_glock (g : gst) (l : option nat) : gst :=
@@ -99,7 +93,6 @@ Definition release_lock (g : gst) (t : nat) : gst :=
   end.
 
 Definition finished : txinfo := {| x_obsolete := true; x_released := true |}.
-Definition left_open : txinfo := {| x_obsolete := false; x_released := false |}.
 
 (* except Exception: conn.rollback(); raise -- finally: restore the slot *)
 Definition exit_raise (g : gst) (t : nat) (old : cref) (is_thr : bool) (e : hexc) (k : nat) : gst :=
@@ -109,15 +102,6 @@ Definition exit_raise (g : gst) (t : nat) (old : cref) (is_thr : bool) (e : hexc
 Definition exit_return (g : gst) (t : nat) (old : cref) (is_thr : bool) (view : option table) (created : list Z) : gst :=
   let g1 := match view with Some v => with_gcommitted g v | None => g end in
   install (release_lock g1 t) t is_thr old (PDone (Return created) (Some finished)).
-
-(* conn.commit(close=True) raises out of its expiry loop, AFTER the database commit: the exception leaves
-   doInTransaction through the finally clause; close never happens *)
-Definition exit_commit_raises (g : gst) (t : nat) (old : cref) (is_thr : bool) (view : option table) (k : nat) : gst :=
-  let g1 := match view with Some v => with_gcommitted g v | None => g end in
-  install (release_lock g1 t) t is_thr old (PDone (Raised XCommit k) (Some left_open)).
-
-Definition poisoned (ts : tstate) (touched : list Z) : bool :=
-  match ts_poison ts with Some id => mem_z id touched | None => false end.
 
 (* what the transaction reads *)
 Definition tview (g : gst) (view : option table) : table :=
@@ -142,28 +126,26 @@ Definition tick (g : gst) (t : nat) : gst :=
              end) with
       | None => set_thread g t (ts_slot ts) (PDone (Raised XNoConnection 0) None)
       | Some (CTx _, _) => set_thread g t (ts_slot ts) (PDone (Raised XNested 0) None)
-      | Some (CDb n, is_thr) => install g t is_thr (CTx t) (PRun (CDb n) is_thr None [] [] body 0 [])
+      | Some (CDb n, is_thr) => install g t is_thr (CTx t) (PRun (CDb n) is_thr None [] body 0 [])
       end
-  | PRun old is_thr view cached touched [] k created =>
-      if poisoned ts touched then exit_commit_raises g t old is_thr view k
-      else exit_return g t old is_thr view created
-  | PRun old is_thr view cached touched (st :: rest) k created =>
+  | PRun old is_thr view cached [] k created => exit_return g t old is_thr view created
+  | PRun old is_thr view cached (st :: rest) k created =>
       let v := tview g view in
-      let go (view' : table) (cached' : list Z) (touched' : list Z) (created' : list Z) : gst :=
-        set_thread (with_glock g (Some t)) t (ts_slot ts) (PRun old is_thr (Some view') cached' touched' rest (S k) created') in
+      let go (view' : table) (cached' : list Z) (created' : list Z) : gst :=
+        set_thread (with_glock g (Some t)) t (ts_slot ts) (PRun old is_thr (Some view') cached' rest (S k) created') in
       match st with
       | BFail n => exit_raise g t old is_thr (XUser n) k
       | BCreate a b =>
           if locked_by_other g t then exit_raise g t old is_thr XLocked k
-          else let '(id, v') := tbl_insert [a; b] v in go v' (add_id id cached) (add_id id touched) (created ++ [id])
+          else let '(id, v') := tbl_insert [a; b] v in go v' (add_id id cached) (created ++ [id])
       | BUpdate id c x =>
           if negb (get_ok v cached id) then exit_raise g t old is_thr XNotFound k
           else if locked_by_other g t then exit_raise g t old is_thr XLocked k
-          else go (tbl_update id c x v) (add_id id cached) (add_id id touched) created
+          else go (tbl_update id c x v) (add_id id cached) created
       | BDelete id =>
           if negb (get_ok v cached id) then exit_raise g t old is_thr XNotFound k
           else if locked_by_other g t then exit_raise g t old is_thr XLocked k
-          else go (tbl_delete id v) (remove_id id cached) (add_id id touched) created
+          else go (tbl_delete id v) (remove_id id cached) created
       end
   end.
 
@@ -189,19 +171,6 @@ Definition body_result (v : table) (body : list bstep) : result := fst (body_run
 Definition body_table (v : table) (body : list bstep) : table := snd (body_run v [] body 0 []).
 
 (* ------------------------------------------------------------------ vocabulary of the theorems *)
-(* the ids commit's expiry loop would walk over after the body ran to its end against table v *)
-Fixpoint body_touched (v : table) (cached touched : list Z) (steps : list bstep) : list Z :=
-  match steps with
-  | [] => touched
-  | BFail n :: _ => touched
-  | BCreate a b :: rest =>
-      let '(id, v') := tbl_insert [a; b] v in body_touched v' (add_id id cached) (add_id id touched) rest
-  | BUpdate id c x :: rest =>
-      if get_ok v cached id then body_touched (tbl_update id c x v) (add_id id cached) (add_id id touched) rest else touched
-  | BDelete id :: rest =>
-      if get_ok v cached id then body_touched (tbl_delete id v) (remove_id id cached) (add_id id touched) rest else touched
-  end.
-
 Definition is_done (ph : phase) : bool := match ph with PDone _ _ => true | _ => false end.
 Definition is_idle (ph : phase) : bool := match ph with PIdle _ => true | _ => false end.
 Definition all_done (g : gst) : bool := forallb (fun ts => is_done (ts_phase ts)) (g_threads g).
@@ -219,22 +188,11 @@ Definition start_process (g : gst) : bool :=
   slot_is_db (g_proc g) &&
   match g_lock g with None => true | Some _ => false end.
 
-(* no thread's environment carries the fault *)
-Definition unpoisoned (g : gst) : bool :=
-  forallb (fun ts => match ts_poison ts with None => true | Some _ => false end) (g_threads g).
-
 (* thread t's own slot holds DBConnection n (is_thr = true), or it has no slot of its own and the process
    slot holds DBConnection n *)
 Definition caller_bound (g : gst) (t : nat) (n : nat) (is_thr : bool) : Prop :=
   if is_thr return Prop then ts_slot (thread g t) = Some (CDb n)
   else ts_slot (thread g t) = None /\ g_proc g = Some (CDb n).
-
-(* the fault strikes: the body, run to its end, touches the row whose parent-side instance raises in expire() *)
-Definition fault_strikes (g : gst) (t : nat) (body : list bstep) : bool :=
-  match ts_poison (thread g t) with
-  | Some id => mem_z id (body_touched (g_committed g) [] [] body)
-  | None => false
-  end.
 
 Definition body_of (g : gst) (t : nat) : list bstep :=
   match ts_phase (thread g t) with PIdle b => b | _ => [] end.
